@@ -79,7 +79,8 @@ PROPS = {
             "planted secrets are >= 10 characters and unique, so an occurrence in output/log is a leak and not a coincidence"],
     },
     "C13": {
-        "families": [("det", {"quick": 1500, "thorough": 80000}, {"mode": "c13"})],
+        "families": [("det", {"quick": 1500, "thorough": 80000}, {"mode": "c13"}),
+                     ("det", {"quick": 32, "thorough": 2500}, {"mode": "c13", "child": True})],
         "wall": {"quick": 200, "thorough": 2400},
         "rule": "one evaluation = one scenario (tree, options, listing order, entry point) executed in a cold simulated process and "
                 "again with a chosen set of nondeterminism dimensions changed (entropy, random seed, hash-set order, clock/pid, "
@@ -93,7 +94,8 @@ PROPS = {
             "interpreters (count in reach_probes.child_runs)"],
     },
     "C10": {
-        "families": [("det", {"quick": 1500, "thorough": 80000}, {"mode": "c10"})],
+        "families": [("det", {"quick": 1500, "thorough": 80000}, {"mode": "c10"}),
+                     ("det", {"quick": 24, "thorough": 1500}, {"mode": "c10", "child": True})],
         "wall": {"quick": 200, "thorough": 2400},
         "rule": "one evaluation = one word list (1-6 words over g-z, overlaps, mixed case, substrings of reserved words, user "
                 "reserved additions) and 3-14 lines, executed under every alternation order (all n! for n <= 3, 4 sampled above) "
